@@ -9,6 +9,7 @@ import StepModel.ComplexAccept
 import StepModel.ComplexOrFreeTop
 import StepModel.ComplexTerm2
 import StepModel.ComplexSatO5
+import StepModel.ComplexFuel
 /-!
 # C08 — complex instances are accepted exactly when the supertype constraints allow them
 
@@ -144,6 +145,38 @@ marks, any stored `viable` values) whose OrLists are shorter than `LISTEND`. -/
 theorem C08_retry_terminates (combo : Bool) (f : Nat) (head : ST) (es : Ents) (hs : smallOr (skel head))
     (hf : cap (skel head) + 2 * sz (skel head) + 2 ≤ f) : retry f combo head es ≠ .outOfFuel :=
   retry_terminates combo (cap (skel head)) f head es hs (Nat.sub_le _ _) hf
+
+/-- **`ComplexList::matches` terminates, all of it**: `matchNonORs`, `matchORs` (with the `unmarkAll`/`acceptChoice`
+calls inside) and the retry loop.  For every well-formed list (`treeWF`) whose OrLists are shorter than `LISTEND`
+(`smallOrT`; without it the real matcher loops forever: fixes/C08-3) and every ascending request list, fuel
+`capT + 2·szT + 2` — the number of choice combinations plus one walk over the hierarchy — is enough, for either kind of
+matching (`combo`).  The model's fuel is a clock of the real recursion depth and loop rounds, so this bounds the number
+of retry rounds of the real loop by `capT head`. -/
+theorem C08_matches_terminates (fuel : Nat) (combo : Bool) (head : Tree) (es : Ents) (hwf : treeWF head = true)
+    (hN : (names es).Pairwise (· < ·)) (hsm : smallOrT head) (hf : capT head + 2 * szT head + 2 ≤ fuel) :
+    matchesList fuel combo head es ≠ .outOfFuel :=
+  matches_fuel fuel combo head es hwf hN hsm hf
+
+/-- **`supports` answers** (excluded: requests with multiply-inheriting members, where the joined list is matched — its
+size is not bounded here): on a collect of the emitted shape whose OrLists are shorter than `LISTEND` and whose lists'
+choice combinations fit the model's default fuel, `supports` returns `true` or `false` — no crash, no exhausted fuel —
+for every request without such members. -/
+theorem C08_supports_answers_partial (c : Collect) (parts : List Name) (hc : ∀ h ∈ c, headWF h = true)
+    (hsm : ∀ h ∈ c, smallOrT h) (hf : ∀ h ∈ c, capT h + 2 * szT h + 2 ≤ defaultFuel c) :
+    ∃ b, supports c [] parts = .ok b := by
+  have h1 := supports_fuel c parts hc hsm hf
+  have h2 := C08_no_crash c [] parts hc (fun _ _ hm => by cases hm)
+  cases h : supports c [] parts with
+  | ok b => exact ⟨b, rfl⟩
+  | crash k => exact absurd h (h2 k)
+  | outOfFuel => exact absurd h h1
+
+/-- the hypotheses are satisfiable: `a SUPERTYPE OF (ONEOF(b, c) ANDOR d)` -/
+example : ∀ parts, ∃ b, supports [.and [.simple 0, .andor [.or [.simple 1, .simple 2], .simple 3]]] [] parts = .ok b :=
+  fun parts => C08_supports_answers_partial _ parts (by decide)
+    (by intro h hh; simp only [List.mem_singleton] at hh; subst hh
+        simp only [smallOrT, smallOrTL, and_true, List.length_cons, List.length_nil]; decide)
+    (by decide)
 
 -- ------------------------------------------------------------------ the tree construction is right (induction on the expression)
 /-- **Every nesting of ONEOF/AND/ANDOR, every kind of parent list** (supertype head, AND, ANDOR, OR — with and without
